@@ -260,4 +260,21 @@ def extinctAtCopies (a d : Taxon) (q : Taxon) : List SL → Nat
   | c :: cs => extinctAt a d q c + extinctAtCopies a d q cs
 end
 
+mutual
+/-- lineages of the history at `d` that lie below a lineage at `a`, with (`want = true`) or without a duplication event on the
+    way from `a` down to them; `st` as for `reportedN` -/
+def reportedAt (want : Bool) (a d : Taxon) : Taxon → Option Bool → SL → Nat
+  | q, st, .gene _ _ => if q == d && st == some want then 1 else 0
+  | q, st, .grp _ _ _ subs =>
+    (if q == d && st == some want then 1 else 0) + reportedAtSubs want a d q (if q == a then some false else st) subs
+def reportedAtSubs (want : Bool) (a d : Taxon) (q : Taxon) (st : Option Bool) : List Sub → Nat
+  | [] => 0
+  | .one i l :: r => reportedAt want a d (i :: q) st l + reportedAtSubs want a d q st r
+  | .dup i _ cs :: r => reportedAtCopies want a d (i :: q) (st.map fun _ => true) cs + reportedAtSubs want a d q st r
+  | .ann _ :: r => reportedAtSubs want a d q st r
+def reportedAtCopies (want : Bool) (a d : Taxon) (q : Taxon) (st : Option Bool) : List SL → Nat
+  | [] => 0
+  | c :: cs => reportedAt want a d q st c + reportedAtCopies want a d q st cs
+end
+
 end Pyham
